@@ -5,6 +5,8 @@ CONSTANTS
   ReadDrops <- MC_Drops1
   ReReadKeys <- MC_ReRead2
   InsertNewTagStoresChars = FALSE
+  NonAtomicRead = FALSE
+  QReadBindsDbFirst = FALSE
   ShallowCopy = TRUE
   SrcSteps = 2
   Emit = FALSE
